@@ -110,9 +110,14 @@ fn parent(args: &vcore::Args) {
     mon.extra.insert("signer_states_observed".into(), serde_json::json!(states));
     mon.extra.insert("signer_transitions_observed".into(), serde_json::json!(transitions));
     let min = match args.tier {
-        Tier::Quick => 20,
-        Tier::Thorough => 400,
+        Tier::Quick => 100,
+        Tier::Thorough => 3000,
     };
+    let done = mon.counter("histories_completed");
+    let discarded = mon.counter("histories_discarded_harness_error");
+    if discarded * 4 > done.max(1) {
+        mon.inconclusive(&format!("{discarded} histories were discarded because the harness itself failed (e.g. loopback listener, sqlite), {done} completed"));
+    }
     mon.finish(workload::RULE, workload::ASSUMPTIONS, min);
 }
 
@@ -124,7 +129,7 @@ async fn child(args: &vcore::Args) {
     let mut mon = Monitor::with("C20", args.tier, args.seed);
     let histories = match args.tier {
         Tier::Quick => 3,
-        Tier::Thorough => 8,
+        Tier::Thorough => 14,
     };
     for h in 0..histories {
         if only.is_some_and(|o| o != h) {
@@ -134,15 +139,28 @@ async fn child(args: &vcore::Args) {
         let hdir = dir.join(format!("h{h}"));
         let _ = std::fs::remove_dir_all(&hdir);
         let mut rng = mon.rng("c20", shard * 1000 + h);
-        let honest = shard == 0 && h == 0;
-        match workload::one_history(&mut mon, &mut rng, hdir.clone(), &hid, honest).await {
-            Ok(()) => mon.count("histories_completed"),
+        let scenario = match (shard, h) {
+            (0, 0) => Some("honest"),
+            (0, 1) => Some("missed-round"),
+            (0, 2) => Some("lost-registration"),
+            _ => None,
+        };
+        match workload::one_history(&mut mon, &mut rng, hdir.clone(), &hid, scenario).await {
+            Ok(()) => {
+                mon.count("histories_completed");
+                mon.eval();
+            }
             Err(e) => {
                 mon.count("histories_discarded_harness_error");
                 if std::env::var("VERIF_DEBUG").is_ok() {
                     eprintln!("history {hid} discarded: {e:#}");
                 }
             }
+        }
+        // panics anywhere in the process (signer / aggregator background tasks) are diagnostics
+        let panics: Vec<String> = mon_agg::hist::PANICS.lock().map(|mut p| p.drain(..).collect()).unwrap_or_default();
+        for p in panics {
+            mon.count(&format!("diag:panic@{}", vcore::panic_location(&p)));
         }
         let _ = std::fs::remove_dir_all(&hdir);
     }
